@@ -48,6 +48,13 @@ pub struct JsonFormat {
     pub numeric_values: bool,
     pub extra_keys: bool,
     pub pretty: bool,
+    /// Order of the observations in the response (a matter of format, not of content):
+    /// 0 ascending by date (what Valet does by default), 1 descending, 2 a few observations
+    /// listed late (after newer ones), 3 a few observations listed twice (identical copies).
+    #[serde(default)]
+    pub obs_order: u8,
+    #[serde(default)]
+    pub order_seed: u64,
 }
 
 /// Damaged observations (C12 obs_malformed configuration): (date, kind).
@@ -146,6 +153,28 @@ impl BocData {
                 Some(_) => format!("\"{} {}\"", d, v),
             };
             obs.push(o);
+        }
+        match self.format.obs_order {
+            1 => obs.reverse(),
+            2 | 3 if obs.len() >= 2 => {
+                let mut x = self.format.order_seed ^ (start.year() as u64).wrapping_mul(0x9E37_79B9_7F4A_7C15);
+                let n = 1 + (splitmix(&mut x) % 3) as usize;
+                for _ in 0..n {
+                    // prefer the last observations: they are the ones look-ups near today want
+                    let len = obs.len();
+                    let i = if splitmix(&mut x) % 2 == 0 { len - 1 - (splitmix(&mut x) as usize % len.min(6)) } else { splitmix(&mut x) as usize % len };
+                    if self.format.obs_order == 2 {
+                        let o = obs.remove(i);
+                        let j = i + 1 + (splitmix(&mut x) as usize % (len - i).max(1));
+                        obs.insert(j.min(obs.len()), o);
+                    } else {
+                        let o = obs[i].clone();
+                        let j = splitmix(&mut x) as usize % (len + 1);
+                        obs.insert(j, o);
+                    }
+                }
+            }
+            _ => {}
         }
         let sep = if self.format.pretty { ",\n    " } else { "," };
         let body = obs.join(sep);
@@ -355,6 +384,9 @@ pub struct FxPlan {
     /// Use the deprecated 'date' column name for the settlement date.
     pub app_legacy_date: bool,
     pub net_faults: Vec<Option<String>>,
+    /// The server's date when it differs from the process's clock (a clock set ahead): the
+    /// snapshot SimBoC serves is the one of this day. None = the process's today.
+    pub server_today: Option<Date>,
     pub fs_faults: FsFaultSpec,
     pub knobs: Knobs,
     pub hash_seed: u64,
@@ -436,12 +468,12 @@ pub fn run_fx_process(plan: FxPlan) -> FxObs {
     let mut env = ProcEnv::new(plan.hash_seed, plan.today);
     env.knobs = plan.knobs.clone();
     env.fs_faults = plan.fs_faults.to_faults();
-    let FxPlan { data, today, published_today, force, cache, mem_in, lookups, app_rows, app_files, app_console, app_legacy_date, net_faults, .. } = plan;
+    let FxPlan { data, today, published_today, force, cache, mem_in, lookups, app_rows, app_files, app_console, app_legacy_date, net_faults, server_today, .. } = plan;
     let out: ProcOut<Inner> = run_process(&env, move || {
         use acb::fx::io::{CsvRatesCache, InMemoryRatesCache, RateLoader, RatesCache};
         use acb::util::rw::WriteHandle;
         let log = Rc::new(RefCell::new(Vec::<ReqObs>::new()));
-        let boc = SimBoc { data: data.clone(), today, published_today, net_faults, log: log.clone() };
+        let boc = SimBoc { data: data.clone(), today: server_today.unwrap_or(today), published_today, net_faults, log: log.clone() };
         let err = WriteHandle::stderr_write_handle();
         let mem_handle;
         let cache_box: Box<dyn RatesCache> = match cache {
@@ -580,6 +612,7 @@ impl Reference {
             app_console: false,
             app_legacy_date: false,
             net_faults: vec![],
+            server_today: None,
             fs_faults: FsFaultSpec::default(),
             knobs: Knobs::default(),
             hash_seed: 0x5EED,
@@ -685,7 +718,7 @@ pub fn gen_calendar(r: &mut Rng) -> Calendar {
 }
 
 pub fn gen_format(r: &mut Rng) -> JsonFormat {
-    JsonFormat { numeric_values: r.chance(1, 4), extra_keys: r.chance(1, 4), pretty: r.chance(1, 3) }
+    JsonFormat { numeric_values: r.chance(1, 4), extra_keys: r.chance(1, 4), pretty: r.chance(1, 3), obs_order: 0, order_seed: 0 }
 }
 
 /// Dates worth asking about for a given calendar and "today": edges of gaps,
